@@ -89,7 +89,7 @@ func (c *vT) symValues() {
 	case vEncStr:
 		c.str = make([]string, n)
 		for i := range c.str {
-			c.str[i] = vString("v", vChoice(2)) // lengths 0..1: variable width incl. empty
+			c.str[i] = vString("v", vChoice(1+vParamDef("vl", 1))) // lengths 0..vl (default 1): variable width incl. empty
 		}
 	case vEncI64:
 		c.i64 = make([]int64, n)
